@@ -259,6 +259,9 @@ func VendorSpecific(a Attribute) (vendorID uint32, value Attribute, err error) {
 // NewVendorSpecific returns a new vendor specific attribute with the given
 // vendor ID and value.
 func NewVendorSpecific(vendorID uint32, value Attribute) (Attribute, error) {
+	if len(value) < 1 {
+		return nil, errors.New("value too short")
+	}
 	if len(value) > 249 {
 		return nil, errors.New("value too long")
 	}
